@@ -209,6 +209,14 @@ def run_vector(vec):
             continue
         if op == "shares":
             problems += [tag + p for p in compare_shares(U, r, exp)]
+            # shares do not depend on the magnitude of the array: tiny values give the same shares (no absolute thresholds)
+            if layout == "C":
+                try:
+                    xs = U.array(cfg["xd"], x.values * 2.0 ** -40, name="x")
+                    rs = xs.get_shares_over(tuple(cfg["yd"]))
+                    problems += [tag + "(array scaled by 2^-40) " + p for p in compare_shares(U, rs, exp)]
+                except Exception as e:
+                    problems.append(tag + f"(array scaled by 2^-40) raised {type(e).__name__}: {str(e)[:120]}")
         elif op in NUM_ONLY:
             problems += [tag + p for p in compare_array(U, r, exp, "num", lambda g: 0)]
         else:
